@@ -4,7 +4,7 @@ import values
 from values import VAL, show
 from runner import inst
 from rules import sites
-from rules.common import (tags_of, cls_of, witness_path, arg_role, obj_root, outcomes, path_class, strip_view, callback_kind)
+from rules.common import (tags_of, cls_of, witness_path, arg_role, obj_root, outcomes, path_class, strip_view, callback_kind, is_atime_touch_of)
 from rules.c15 import stack_entries
 from graph import path_brief
 
@@ -53,7 +53,7 @@ def r04_2(ctx):
     A = q.edges(lambda x: kind_test(x, 1))
     N = q.edges(lambda x: kind_test(x, 0))
     oks = q.terminals(lambda e: e['k'] == 'ret' and e.get('variant') == 'Ok')
-    touch = [e for e in q.prim_edges('meta_atime') if obj_root(arg_role(q.E[e][2], 'path')) == dst]
+    touch = [e for e in q.prim_edges({'meta_atime', 'meta_times_h'}) if is_atime_touch_of(q.E[e][2], dst)]
     rm = [e for e in q.prim_edges('ns_remove_file') if obj_root(arg_role(q.E[e][2], 'path')) == src]
     esc1 = q.must_follow(A, touch, oks)
     out.append(inst('R04.2', 'exists=>touch', bool(A) and not esc1, 'link fails with AlreadyExists => destination touched before any Ok exit' if A and not esc1 else
